@@ -11,8 +11,6 @@ package kube
 //@ import atypes "github.com/ovrclk/akash/types"
 
 // ---- C11 (part): the pod and container the provider builds for a tenant service are locked down ----
-//@ extern clusterUtil.ComputeCommittedResources(factor, rv)
-//@   pure
 // the amount a Quantity stands for: value * 10^scale (A-QUANTITY: Quantity arithmetic is not interpreted)
 //@ spec qtyVal(q: resource.Quantity): int
 //@ spec qtyScale(q: resource.Quantity): int
